@@ -18,7 +18,7 @@ import ast
 import re
 from typing import Optional
 
-from ..core import AnalysisError, norm, short
+from ..core import AnalysisError, call_name, norm, short, walk_local
 from ..engine import Engine
 from ..report import Check
 from .. import g4
@@ -389,6 +389,71 @@ def run(chk: Check, eng: Engine) -> None:
              "emitted tokens (drop queued EOFs, NEWLINE, one DEDENT per open block, EOF)", floor=1)
     flush_rule(chk, eng, base_cls, ctxt, list_attrs, strip_self)
 
+    chk.rule("R14-f", "what the C++ input stream removes from the spec text before lexing (a leading byte order mark) is removed for every front end: parse_tree() strips it "
+             "before any input stream is built", floor=1)
+    input_normalisation_rule(chk, eng)
+
+
+def input_normalisation_rule(chk: Check, eng: Engine) -> None:
+    """R14-f.  The vendored ANTLR C++ runtime drops a leading UTF-8 byte order mark in ANTLRInputStream::load; the Python runtime's InputStream keeps
+    every code point.  A spec saved with a BOM is then read by the C++ front end and rejected by the Python one.  The text must therefore be
+    normalised where both front ends still share it: in parse_tree(), a re-binding of the contents parameter that removes leading U+FEFF has to
+    precede every `InputStream(<contents>)`.  If the C++ runtime stops removing the mark, nothing is required."""
+    try:
+        cpp = eng.read_text("src/fandango/language/cpp_parser/antlr4-cpp-runtime/ANTLRInputStream.cpp")
+    except (OSError, AnalysisError):
+        raise AnalysisError("ANTLRInputStream.cpp of the vendored C++ runtime not found")
+    import re as _re
+
+    strips = _re.search(r'"\\xef\\xbb\\xbf"', cpp, _re.I) is not None and _re.search(r"strncmp\s*\(\s*data\s*,\s*bom\s*,\s*3\s*\)\s*==\s*0\s*\)\s*\{\s*data\s*\+=\s*3", cpp) is not None
+    if "load(" not in cpp:
+        raise AnalysisError("ANTLRInputStream.cpp: load() not found")
+    pt = eng.func("fandango.language.parse.parse_tree", "parse_tree")
+    if not strips:
+        chk.ok("R14-f", pt.fq, pt.line, "the C++ input stream does not remove a byte order mark: nothing to mirror")
+        return
+    params = [p_ for p_ in pt.params()]
+    streams = [c for c in walk_local(pt.node) if isinstance(c, ast.Call) and call_name(c) == "InputStream" and c.args]
+    if not streams:
+        raise AnalysisError("parse_tree: no InputStream(...) construction found")
+    BOM = "\ufeff"
+
+    def removes_bom(v: ast.AST, var: str) -> bool:
+        # var.lstrip("\ufeff") / var.removeprefix("\ufeff") / var[1:] if var.startswith("\ufeff") else var
+        if isinstance(v, ast.Call) and isinstance(v.func, ast.Attribute) and v.func.attr in ("lstrip", "removeprefix") and norm(v.func.value) == var \
+                and len(v.args) == 1 and isinstance(v.args[0], ast.Constant) and v.args[0].value == BOM:
+            return True
+        if isinstance(v, ast.IfExp) and isinstance(v.test, ast.Call) and isinstance(v.test.func, ast.Attribute) and v.test.func.attr == "startswith" \
+                and norm(v.test.func.value) == var and v.test.args and isinstance(v.test.args[0], ast.Constant) and v.test.args[0].value == BOM \
+                and isinstance(v.body, ast.Subscript) and norm(v.body.value) == var and norm(v.orelse) == var:
+            return True
+        return False
+
+    for c in streams:
+        a = c.args[0]
+        if not isinstance(a, ast.Name):
+            chk.bad("R14-f", eng.relfile(pt), c.lineno, pt.fq, f"`{short(c, 60)}` is built from an expression this rule cannot follow", "cannot show that the text is normalised", keyparts="stream-arg")
+            continue
+        var = a.id
+        ok = False
+        # a top-level statement of parse_tree, before the statement that contains the stream construction, re-binds var without the mark;
+        # `if var.startswith(BOM): var = var[1:]` counts as well
+        for st in pt.node.body:  # type: ignore[attr-defined]
+            if any(x is c for x in ast.walk(st)):
+                break
+            if isinstance(st, ast.Assign) and len(st.targets) == 1 and isinstance(st.targets[0], ast.Name) and st.targets[0].id == var and removes_bom(st.value, var):
+                ok = True
+            if isinstance(st, (ast.If, ast.While)) and not st.orelse and isinstance(st.test, ast.Call) and isinstance(st.test.func, ast.Attribute) and st.test.func.attr == "startswith" \
+                    and norm(st.test.func.value) == var and st.test.args and isinstance(st.test.args[0], ast.Constant) and st.test.args[0].value == BOM \
+                    and any(isinstance(b, ast.Assign) and isinstance(b.targets[0], ast.Name) and b.targets[0].id == var and isinstance(b.value, ast.Subscript) and norm(b.value.value) == var for b in st.body):
+                ok = True
+        if ok:
+            chk.ok("R14-f", pt.fq, c.lineno, f"`{short(c, 50)}`: a leading byte order mark is removed from `{var}` before the front ends part")
+        else:
+            chk.bad("R14-f", eng.relfile(pt), c.lineno, pt.fq, f"`{short(c, 60)}` is given the spec text as it came in, with a leading byte order mark if it has one",
+                    "the C++ input stream (ANTLRInputStream::load) drops a leading UTF-8 BOM, the Python InputStream keeps U+FEFF: a spec saved with a BOM is accepted by the "
+                    "C++ front end and rejected by the Python one (`mismatched input '\\ufeff'`)", keyparts=f"bom-not-normalised|{var}")
+
 
 def _inline_private_locals(fn: ast.FunctionDef, other_side: set) -> list:
     """Body of fn with every local that is assigned exactly once (a plain `name = <expression>` at statement level of the function), is not a
@@ -538,7 +603,11 @@ _CPB = "src/fandango/language/cpp_parser/FandangoLexerBase.cpp"
 _CPH = "src/fandango/language/cpp_parser/FandangoLexerBase.h"
 _TOK = "src/fandango/language/cpp_parser/FandangoParser.tokens"
 _LG4 = "language/FandangoLexer.g4"
+_PT = "src/fandango/language/parse/parse_tree.py"
 MUTANTS = [
+    M("byte-order-mark-left-to-the-front-ends", _PT, "    fan_contents = fan_contents.lstrip(\"\\ufeff\")\n", "", "R14-f"),
+    M("byte-order-mark-removed-for-the-legacy-parser-only", _PT, "    fan_contents = fan_contents.lstrip(\"\\ufeff\")\n    if fandango.Fandango.parser != \"legacy\":\n", "    if fandango.Fandango.parser != \"legacy\":\n", "R14-f",
+      more=(("        LOGGER.debug(f\"{filename}: setting up legacy .fan parser\")\n", "        LOGGER.debug(f\"{filename}: setting up legacy .fan parser\")\n        fan_contents = fan_contents.lstrip(\"\\ufeff\")\n"),)),
     M("python-flush-keeps-queued-eof", _PYB, "            self.tokens = [\n                token for token in self.tokens if token.type != FandangoParser.EOF\n            ]\n", "", "R14-e"),
     M("python-flush-without-newline", _PYB, "            self.emitToken(self.commonToken(FandangoParser.NEWLINE, \"\\n\"))\n", "", "R14-e"),
     M("python-flush-nested-under-empty-queue", _PYB, "        if self._input.LA(1) == FandangoParser.EOF and len(self.indents) != 0:\n", "        if len(self.tokens) == 0 and self._input.LA(1) == FandangoParser.EOF and len(self.indents) != 0:\n", "R14-e"),
@@ -556,6 +625,7 @@ MUTANTS = [
     M("python-reset-forgets-in-python", _PYB, "        self.opened = 0\n        self.in_python = 0\n        self.in_fstring = False\n        self.in_filepath = 0\n        super().reset()", "        self.opened = 0\n        self.in_fstring = False\n        self.in_filepath = 0\n        super().reset()", "R14-c"),
 ]
 TWINS = [
+    M("twin-byte-order-mark-removed-by-a-guarded-slice", _PT, "    fan_contents = fan_contents.lstrip(\"\\ufeff\")\n", "    while fan_contents.startswith(\"\\ufeff\"):\n        fan_contents = fan_contents[1:]\n", None),
     M("twin-python-skip-condition-in-named-locals", _PYB, "        if self.opened > 0 or (next_next != -1 and next_ in (10, 13, 35)):\n", "        inside_brackets = self.opened > 0\n        next_line_is_empty = next_next != -1 and next_ in (10, 13, 35)\n        if inside_brackets or next_line_is_empty:\n", None),
     M("twin-python-previous-branches-swapped", _PYB, "            previous = 0 if len(self.indents) == 0 else self.indents[-1]\n", "            previous = self.indents[-1] if self.indents else 0\n", None),
     M("twin-python-truthiness-of-lists", _PYB, "                while len(self.indents) > 0 and self.indents[-1] > indent:\n", "                while self.indents and indent < self.indents[-1]:\n", None),
